@@ -28,6 +28,12 @@ def gen_cases(rng, tier):
     per = 8 if tier == "quick" else 30
     for _ in range(n_uni):
         u = gen_universe(rng, force_falsy=rng.random() < 0.4)
+        if rng.random() < 0.4:
+            # prefer families in which some class inherits a CHILD field through its second base
+            for _try in range(30):
+                if any(f.role != "Prop" for c in u.classes for m in c.mixins for f in u.by_name[m].own):
+                    break
+                u = gen_universe(rng, force_falsy=rng.random() < 0.4)
         uj = universe_to_json(u)
         ct = u.term()
         cn = [c.name for c in u.classes]
